@@ -55,7 +55,11 @@ RULE = ("cases = (object kind, dimension 2..4, composite shape, model, degrees/"
         "endpoint from the point at infinity, rescaled representatives incl. "
         "lightlike differences, horospheres at all centres, horoarcs (unit and "
         "composite), subspaces of dimension 1..n-1 from ideal bases (generic and "
-        "symmetric) and hyperplanes from normals; histories: relatives of a "
+        "symmetric) and hyperplanes from normals; Hyperplane objects by "
+        "representation class (integer normals, explicit (n+1)x(n+1) data with "
+        "rescaled dual / ideal rows, images under Isometry(lambda*M) for lambda "
+        "!= +-1 incl. negative, float32 normals), unit and composite, with further "
+        "ideal points of the normal's orthogonal complement; histories: relatives of a "
         "composite segment / geodesic / horosphere kept alive across item "
         "assignments (index, row / slice, mask keys; object or array values) into "
         "the original or a relative, all live objects re-queried; "
@@ -716,7 +720,10 @@ def setup(run):
             judge_units(m_sub, np.asarray(miss), np.asarray(t_on * 3), key("misses-ideal-point"),
                         what + ": the sphere misses a further ideal point of the subspace",
                         lambda idx: dict(case_of(()), extra_ideal_points=extra))
-    attach.wrap_attr(run, H.Subspace, "sphere_parameters", h_sphere)
+    # overrides=True: a subclass that answers sphere_parameters itself (seeded
+    # change C14-r5-1: a closed-form Hyperplane.sphere_parameters) stays under
+    # the same contract -- the sphere is judged against the object's ideal basis
+    attach.wrap_attr(run, H.Subspace, "sphere_parameters", h_sphere, overrides=True)
 
     def h_bsphere(call):
         if call.exc is not None:
@@ -758,7 +765,7 @@ def setup(run):
                     "boundary_sphere_parameters: the sphere in the boundary of the "
                     "half-space model misses an ideal basis point",
                     lambda idx: {"ideal_basis": B[idx], "centre": c[idx], "radius": r[idx]}, ok)
-    attach.wrap_attr(run, H.Subspace, "boundary_sphere_parameters", h_bsphere)
+    attach.wrap_attr(run, H.Subspace, "boundary_sphere_parameters", h_bsphere, overrides=True)
 
     # ---- horospheres ----------------------------------------------------------------
     def horo_ref(self, model):
@@ -849,7 +856,7 @@ def setup(run):
         if judge_horo(m_horo, self, model, c, r, "horosphere") is not None:
             run.note_class("horosphere", np.asarray(self.proj_data).shape[-1] - 1, model,
                            type(self).__name__)
-    attach.wrap_attr(run, H.Horosphere, "sphere_parameters", h_horo)
+    attach.wrap_attr(run, H.Horosphere, "sphere_parameters", h_horo, overrides=True)
 
     def h_harc(call):
         self = call.args[0]
